@@ -42,13 +42,14 @@ def tables():
     return _T
 
 
-def encoder(cfg):
+def encoder(cfg, warn=False):
     from pylatexenc.latexencode import UnicodeToLatexEncoder
-    k = tuple(cfg)
+    k = tuple(cfg) + (warn,)
     if k not in _ENC:
+        kw = {} if warn else {'unknown_char_warning': False}     # warn: the option's default (on)
         _ENC[k] = UnicodeToLatexEncoder(conversion_rules=[cfg[0]],
                                         replacement_latex_protection=cfg[1],
-                                        unknown_char_policy=cfg[2], unknown_char_warning=False)
+                                        unknown_char_policy=cfg[2], **kw)
     return _ENC[k]
 
 
@@ -101,13 +102,20 @@ def braces_balance(out):
 
 def check(s, cfg, res, case):
     res.case()
+    cfg = tuple(cfg)
     setname, prot, policy = cfg
+    warn = bool(case.get('warn'))
     table = tables()[setname]
     nfc = unicodedata.normalize('NFC', s)
     unknown = [c for c in nfc if ord(c) not in table
                and not (32 <= ord(c) <= 127 or c in '\n\r\t')]
+    if unknown and not warn:
+        # the same case with unknown_char_warning left at its default (the warning path runs
+        # before the policy is applied; it must not change the outcome)
+        res.label('unknown-char-with-default-warning')
+        check(s, cfg, res, dict(case, warn=True))
     try:
-        out = encoder(cfg).unicode_to_latex(s)
+        out = encoder(cfg, warn).unicode_to_latex(s)
         raised = False
     except ValueError as e:
         out, raised = None, True
